@@ -103,7 +103,8 @@ def run(tier, seed, mutant=None, only_validate=False):
                         property="C15", engine="atopo", clause="ZipNoCompleteTuple",
                         what="graph %s, operations %s: after %s(%s, %s) the zip node holds a complete tuple it never emits (it does not "
                              "behave like a zip built over its current inputs)" % (t["name"], ops[:lidx], e["ev"], e["a"], e["b"]),
-                        signature=dict(kind="zip-stuck", event=e["ev"]),
+                        # (d.destroy(streams=[u]) is u.disconnect(d) asked for at the other end: the same edit)
+                        signature=dict(kind="zip-stuck", event="disconnect" if e["ev"] == "destroy_from" else e["ev"]),
                         replay=dict(engine="atopo", prog=t["prog"], ops=ops[:lidx])))
             if got[0] >= got[1]:
                 res.accepted += 1
